@@ -275,3 +275,66 @@ Fixpoint mrun (ks : list K) (t : list (K * V)) : list V :=
   | k :: r => let (t', v) := mget t k in v :: mrun r t'
   end.
 End Memo.
+
+(* ============================================================================================== *)
+(* The sphere pair: LMSpace / GLSpace constructors (option handling) and default codomains          *)
+(* ============================================================================================== *)
+(*  LMSpace.__init__(lmax, mmax=None):
+        if mmax is None: mmax = self._lmax
+        if self._mmax < 0 or self._mmax > self._lmax: raise ValueError     (None = ValueError)        *)
+Definition lm_make (lmax : nat) (mmax : option nat) : option (nat * nat) :=
+  let m := match mmax with None => lmax | Some m => m end in
+  if lmax <? m then None else Some (lmax, m).
+
+(*  GLSpace.__init__(nlat, nlon=None):
+        if self._nlat < 1: raise ValueError
+        if nlon is None: self._nlon = 2*self._nlat - 1
+        else: self._nlon = int(nlon); if self._nlon < 1: raise ValueError                            *)
+Definition gl_make (nlat : nat) (nlon : option nat) : option (nat * nat) :=
+  if nlat <? 1 then None else
+  match nlon with
+  | None => Some (nlat, 2 * nlat - 1)
+  | Some n => if n <? 1 then None else Some (nlat, n)
+  end.
+
+(*  GLSpace.size: int(self.nlat * self.nlon)                                                          *)
+Definition gl_size (g : nat * nat) : nat := fst g * snd g.
+
+(*  LMSpace.get_default_codomain: return GLSpace(self.lmax+1, self.mmax*2+1)                          *)
+Definition lm_codomain (s : nat * nat) : option (nat * nat) := gl_make (fst s + 1) (Some (snd s * 2 + 1)).
+
+(*  GLSpace.get_default_codomain:
+        mmax = self._nlon//2;  lmax = max(mmax, self._nlat-1);  return LMSpace(lmax=lmax, mmax=mmax)  *)
+Definition gl_codomain (g : nat * nat) : option (nat * nat) :=
+  let mmax := snd g / 2 in
+  let lmax := Nat.max mmax (fst g - 1) in
+  lm_make lmax (Some mmax).
+
+(* what the correspondence observes: [parameters; size; codomain parameters; codomain-of-codomain parameters] *)
+Definition sph_model (is_lm : bool) (a : nat) (b : option nat) : option (list nat) :=
+  if is_lm then
+    match lm_make a b with
+    | None => None
+    | Some s =>
+        match lm_codomain s with
+        | None => None
+        | Some g =>
+            match gl_codomain g with
+            | None => None
+            | Some s2 => Some [fst s; snd s; lm_size (fst s) (snd s); fst g; snd g; gl_size g; fst s2; snd s2]
+            end
+        end
+    end
+  else
+    match gl_make a b with
+    | None => None
+    | Some g =>
+        match gl_codomain g with
+        | None => None
+        | Some s =>
+            match lm_codomain s with
+            | None => None
+            | Some g2 => Some [fst g; snd g; gl_size g; fst s; snd s; lm_size (fst s) (snd s); fst g2; snd g2]
+            end
+        end
+    end.
